@@ -65,6 +65,10 @@ def _harness(c, cfg):
         else:
             action = np.array(entries, dtype=float)
         inside = all(bool(e >= low) and bool(e <= high) for e in entries)
+    elif kind == "list-ok":
+        action = [0.25 + 0.05 * i for i in range(n)]
+        inside = True
+        entries = list(action)
     elif kind.startswith("idx-np"):
         action = np.int64(int(kind[-1]))
         inside = True
@@ -122,7 +126,7 @@ def _harness(c, cfg):
             info={"got": executed.margin})
     # ---- executed as the allocation it denotes: cash entry ignored, zero entries dropped
     got = dict(executed.allocation.items())
-    if kind == "sym":
+    if kind in ("sym", "list-ok"):
         vec = entries
     else:
         vec = ep.allocs[int(action)]
@@ -246,6 +250,8 @@ def configs(tier):
     add(N=5, M=0, action="too-long", delay=2, inject_at=1, carry_on=True)
     add(N=5, M=0, action="idx-n", delay=1, inject_at=1, space="discrete", carry_on=True)
     add(N=4, M=0, action="nan", delay=0, inject_at=2, carry_on=True)
+    add(N=4, M=0, action="list-ok", delay=0, inject_at=1, cash_in_space=True, two_contracts=True)
+    add(N=4, M=0, action="list-ok", delay=1, inject_at=1)
     add(N=4, M=0, action="2d", delay=0, inject_at=1)
     add(N=4, M=0, action="inf", delay=1, inject_at=1)
     add(N=4, M=0, action="idx-np2", delay=0, inject_at=1, space="discrete")
